@@ -29,7 +29,7 @@ EXPLANATION = (
     "bounds guard adds or multiplies an unbounded 32-bit value taken from the input before widening it "
     "to the 64-bit size it is compared with (the sum wraps and the guard admits what it exists to refuse); (9) an "
     "element of an array that a decoding call filled is sign-checked (itself, or element-wise in an earlier "
-    "validation loop) before it offsets a pointer or sizes a copy. (10) an indexed read from a table validated as `size >= count * K` stays inside it: read width <= stride <= K (R39, the dictionary decoders); (11) R40 loop cursors as in C06.10. Decides "
+    "validation loop) before it offsets a pointer or sizes a copy. (10) an indexed read from a table validated as `size >= count * K` stays inside it: read width <= stride <= K (R39, the dictionary decoders); (11) R40 loop cursors as in C06.10; (12) R44: every value handed to a wrap-prone length parameter (a 64-bit parameter some function adds to a position inside a relational test, found as a fixed point across helpers - carquet_buffer_reader_has, has_bytes, reader_read, reader_skip) and every 64-bit local added to a position in a guard is a constant, at most 32 bits wide before widening, built from such, or tested on every path from where an input-decoding routine (LEB128 / zigzag / 64-bit readers) produced it; the witness otherwise is length = 2^64 - position; (13) R41 as in C10: the block decompressors on format-built streams (invalid forms included: length fields with the top bit set, offsets past the output, cut-off elements) stop at the first access outside the stream or the destination - pointer arithmetic is modelled modulo 2^64, so a length that went negative and a guard that wrapped are seen. Decides "
     "these clauses, not termination bounds in general, oversized shifts, nor safety inside zlib/zstd.")
 
 DECODER_FILES = ["src/compression/snappy.c", "src/compression/lz4.c", "src/encoding/rle.c",
@@ -88,6 +88,14 @@ def run(ctx):
     from ..rules import signedoff
     nso = signedoff.check(ctx, P.funcs_in(*(DECODER_FILES + ["src/encoding/byte_stream_split.c"])))
     ctx.count("decoded_signed_lengths_used_as_offsets", nso)
+    ctx.clause("C08.13 the built-in Snappy and LZ4 decompressors, executed on valid and invalid streams built from the format documents, touch no byte outside the stream and the destination and refuse the invalid ones (rule shared with C10)")
+    from ..rules import blockfmt
+    nbf = blockfmt.check(ctx)
+    ctx.floor("C08 format-built streams through the block decompressors", nbf, 80)
+    ctx.clause("C08.12 a 64-bit length decoded from the input does not reach `position + length` (directly or inside an availability helper) untested: the sum would wrap")
+    from ..rules import wrapsum
+    nws = wrapsum.check(ctx, sorted(set(P.rel(f.file) for f in P.lib_functions() if P.rel(f.file).startswith("src/"))))
+    ctx.floor("C08 lengths handed to position + length tests", nws, 15)
     ctx.clause("C08.8 no bounds guard is computed in 32 bits from an unbounded input value and then compared with a 64-bit size")
     from ..rules import widen
     nwid = widen.check(ctx, DECODER_FILES + CODEC_WRAPPERS + ["src/encoding/byte_stream_split.c", "src/thrift/parquet_types.c"])
